@@ -49,3 +49,20 @@ package tq
 //@   ensures len(left) <= size || len(left) == 0
 //@   ensures forall_int(i, left[i], 0 <= i && i < len(left) ==> time_after(time_now(), left[i].ReadyTime))
 //@   loop 1 invariant forall_int(i, left[i], 0 <= i && i < len(left) ==> time_after(time_now(), left[i].ReadyTime))
+
+// C15: an action whose advertised expiry is less than five seconds away is
+// never handed out; the caller gets a retriable error instead and asks again.
+//@ func (*Action).IsExpiredWithin
+//@   props C15
+//@   ensures result0 == ite(a.ExpiresIn == 0, a.ExpiresAt, time_add(a.createdAt, a.ExpiresIn * 1000000000))
+//@   ensures result1 == (result0 != time_zero && time_after(time_add(time_now(), d), result0))
+
+//@ func (ActionSet).Get
+//@   props C15
+//@   ensures result0 != nil ==> result1 == nil && has(as, rel) && result0 == as[rel]
+//@   ensures result0 != nil ==> !(ite(result0.ExpiresIn == 0, result0.ExpiresAt, time_add(result0.createdAt, result0.ExpiresIn * 1000000000)) != time_zero && time_after(time_add(time_now(), 5000000000), ite(result0.ExpiresIn == 0, result0.ExpiresAt, time_add(result0.createdAt, result0.ExpiresIn * 1000000000))))
+
+//@ func (*Transfer).Rel
+//@   props C15
+//@   ensures result0 != nil ==> result1 == nil
+//@   ensures result0 != nil ==> !(ite(result0.ExpiresIn == 0, result0.ExpiresAt, time_add(result0.createdAt, result0.ExpiresIn * 1000000000)) != time_zero && time_after(time_add(time_now(), 5000000000), ite(result0.ExpiresIn == 0, result0.ExpiresAt, time_add(result0.createdAt, result0.ExpiresIn * 1000000000))))
